@@ -21,6 +21,9 @@ var c16Alphabets = map[string][]string{
 	"wide":  {"a", "ш", "€"},
 }
 
+// token types of registered symbols: application-defined, also far beyond one byte
+func c16Type(i int) int { return 100 + i*997 }
+
 func c16Inputs(alpha []string, extra string, maxLen int) []string {
 	var out []string
 	a := append(append([]string{}, alpha...), extra)
@@ -51,8 +54,8 @@ func c16Exec(c *mon.Case) {
 	root := generic.NewSymbolRootNode()
 	types := map[string]int{}
 	for i, s := range syms {
-		root.Add(s, 100+i)
-		types[s] = 100 + i
+		root.Add(s, c16Type(i))
+		types[s] = c16Type(i)
 	}
 	multi := false
 	for _, s := range syms {
@@ -97,7 +100,7 @@ func c16Exec(c *mon.Case) {
 			if parts[1] == "wide" {
 				kind += " [characters above U+00FF]"
 			}
-			c.Failf(kind, "registered=%q (types 100+index, in this order) input=%q (read #%d on this table): got %s%q rest=%q, want type %d %q rest=%q",
+			c.Failf(kind, "registered=%q (types 100+997*index, in this order) input=%q (read #%d on this table): got %s%q rest=%q, want type %d %q rest=%q",
 				syms, in, n+1, tokTypeName(t.Type()), t.Value(), rest.String(), wantType, wantText, wantRest)
 			return
 		}
@@ -148,7 +151,7 @@ func c16IncrExec(c *mon.Case) {
 			rest.WriteRune(ch)
 		}
 		if t.Value() != wantText || t.Type() != wantType || rest.String() != in[len(wantText):] {
-			c.Failf("wrong symbol text, type or consumed length after a further registration", "registered so far=%q (types 100+index; inputs are read between registrations, the symbol about to be registered last and again first); input=%q: got %s%q rest=%q, want type %d %q rest=%q",
+			c.Failf("wrong symbol text, type or consumed length after a further registration", "registered so far=%q (types 100+997*index; inputs are read between registrations, the symbol about to be registered last and again first); input=%q: got %s%q rest=%q, want type %d %q rest=%q",
 				syms[:registered], in, tokTypeName(t.Type()), t.Value(), rest.String(), wantType, wantText, in[len(wantText):])
 			return false
 		}
@@ -160,8 +163,8 @@ func c16IncrExec(c *mon.Case) {
 		if i > 0 && !read(s+"x", i) {
 			return
 		}
-		root.Add(s, 100+i)
-		types[s] = 100 + i
+		root.Add(s, c16Type(i))
+		types[s] = c16Type(i)
 		sorted = append(sorted, s)
 		sort.SliceStable(sorted, func(a, b int) bool { return len(sorted[a]) > len(sorted[b]) })
 		if !read(s+"x", i+1) || !read(s, i+1) {
@@ -193,6 +196,8 @@ func permutations(xs []string, f func([]string)) {
 	rec(0)
 }
 
+var c16Pristine = map[string]tokenizers.ITokenizer{"generic": newTokenizer("generic"), "expression": newTokenizer("expression"), "mustache": newTokenizer("mustache"), "csv": newTokenizer("csv")}
+
 func buildC16(cfg *mon.Config) []*mon.Sub {
 	var subs []*mon.Sub
 	for _, an := range []string{"ascii", "wide"} {
@@ -211,7 +216,7 @@ func buildC16(cfg *mon.Config) []*mon.Sub {
 		}
 		subs = append(subs, &mon.Sub{
 			Name:          "sets-exhaustive-" + an,
-			Rule:          fmt.Sprintf("every non-empty set of <= %d of the 39 strings of length 1..3 over %q, every registration order for sets up to 2 (quick) / 3 (thorough), seeded orders for larger sets, token types 100+index; on each table every input of length 1..4 over the alphabet plus 'x' is read, then every input again in reverse order (history); oracle: longest registered prefix else the single next character with type Symbol, exact text, type and number of consumed characters; a case is one read; non-trivial = the table holds a multi-character symbol", maxSet, strings.Join(alpha, "")),
+			Rule:          fmt.Sprintf("every non-empty set of <= %d of the 39 strings of length 1..3 over %q, every registration order for sets up to 2 (quick) / 3 (thorough), seeded orders for larger sets, token types 100+997*index; on each table every input of length 1..4 over the alphabet plus 'x' is read, then every input again in reverse order (history); oracle: longest registered prefix else the single next character with type Symbol, exact text, type and number of consumed characters; a case is one read; non-trivial = the table holds a multi-character symbol", maxSet, strings.Join(alpha, "")),
 			Exhaustive:    true,
 			DistinctByGen: true,
 			Floor:         1000,
@@ -248,7 +253,7 @@ func buildC16(cfg *mon.Config) []*mon.Sub {
 	}
 	subs = append(subs, &mon.Sub{
 		Name:  "sets-random-large",
-		Rule:  "seeded random tables of 4..12 symbols of length 1..7 over {<,=,>,!,{,},a,ш,€} in random order, read on 60 random inputs each, twice; same oracle",
+		Rule:  "seeded random tables of 4..12 symbols of length 1..12 over {<,=,>,!,{,},a,ш,€} in random order, read on 60 random inputs each, twice; same oracle",
 		Floor: 100,
 		Gen: func(emit func(string)) {
 			r := cfg.Rng("c16-random")
@@ -258,7 +263,7 @@ func buildC16(cfg *mon.Config) []*mon.Sub {
 				var syms []string
 				for len(syms) < 4+r.Intn(9) {
 					var b strings.Builder
-					for j := 0; j < 1+r.Intn(7); j++ {
+					for j := 0; j < 1+r.Intn(12); j++ {
 						b.WriteString(mon.Pick(r, chars))
 					}
 					if !set[b.String()] {
@@ -334,6 +339,7 @@ func buildC16(cfg *mon.Config) []*mon.Sub {
 	})
 	subs = append(subs, &mon.Sub{
 		Name:          "builtin-tokenizers-growth",
+		Serial:        true,
 		Rule:          "registering further symbols never alters existing ones: on the generic, expression, mustache and CSV symbol states every built-in symbol is read before and after 6 extra symbols sharing its prefixes are added; a case is one (tokenizer, extra set); non-trivial always",
 		DistinctByGen: true,
 		Floor:         4,
@@ -361,6 +367,18 @@ func buildC16(cfg *mon.Config) []*mon.Sub {
 			}
 			for i, e := range strings.Split(parts[1], ",") {
 				t.SymbolState().Add(e, 200+i)
+			}
+			// another instance, built before or after, must not see what was added to this one
+			pristine, later := c16Pristine[parts[0]], newTokenizer(parts[0])
+			for _, e := range strings.Split(parts[1], ",") {
+				rd := func(t tokenizers.ITokenizer) string {
+					tk := t.SymbolState().NextToken(rio.NewStringScanner(e+"x"), t)
+					return fmt.Sprintf("%d %q", tk.Type(), tk.Value())
+				}
+				if a, b := rd(pristine), rd(later); a != b {
+					c.Failf("a symbol registered on one tokenizer shows in another instance", "tokenizer=%s: after adding %q to one instance, a new instance reads %q as %s, an untouched older instance as %s", parts[0], parts[1], e, b, a)
+					return
+				}
 			}
 			for _, s := range builtin {
 				if got := read(s); got != before[s] {
